@@ -597,4 +597,65 @@ Definition shape_of (t : tree) : list (bool * nat * nat) :=
 Definition traverse_fwd (t : tree) : list Z := forward (S (length (contents t))) t (begin_iter t).
 Definition traverse_bwd (t : tree) : list Z := backward (S (length (contents t))) t (end_iter t).
 
+(* ---------- MergeTo (the generic and the linear path; pvMergeFast is not modelled) ---------- *)
+(* pvMergeTo: for each source item, dst.InsertCrt(key, creator) where the creator runs pvExtract on the source *)
+Fixpoint merge_generic (fuel : nat) (src dst : tree) (it : iter) : tree * tree :=
+  match fuel with
+  | 0 => (src, dst)
+  | S f =>
+      if iter_eqb it (end_iter src) then (src, dst)
+      else match deref src it with
+           | None => (src, dst)
+           | Some k =>
+               let '(dst', _, ins) := insert dst k in
+               if ins then let '(src', it') := remove src it in merge_generic f src' dst' it'
+               else merge_generic f src dst (next src it)
+           end
+  end.
+
+(* pvIsOrdered(iter1, iter2) on keys *)
+Definition key_ordered (k1 k2 : Z) : bool := if multi then negb (k2 <? k1)%Z else (k1 <? k2)%Z.
+
+(* the inner `while (dstIter != end && pvIsOrdered(dstIter, iter)) ++dstIter` *)
+Fixpoint skip_ordered (fuel : nat) (dst : tree) (dit : iter) (k : Z) : iter :=
+  match fuel with
+  | 0 => dit
+  | S f => if iter_eqb dit (end_iter dst) then dit
+           else match deref dst dit with
+                | Some x => if key_ordered x k then skip_ordered f dst (next dst dit) k else dit
+                | None => dit
+                end
+  end.
+
+(* pvMergeToLinear *)
+Fixpoint merge_linear (fuel : nat) (src dst : tree) (it dit : iter) : tree * tree :=
+  match fuel with
+  | 0 => (src, dst)
+  | S f =>
+      if iter_eqb it (end_iter src) then (src, dst)
+      else match deref src it with
+           | None => (src, dst)
+           | Some k =>
+               let dit1 := skip_ordered (S (length (contents dst))) dst dit k in
+               if multi || is_greater dst dit1 k then
+                 let '(dst', pos) := add dst dit1 k in
+                 let '(src', it') := remove src it in
+                 merge_linear f src' dst' it' (next dst' pos)
+               else merge_linear f src dst (next src it) (next dst dit1)
+           end
+  end.
+
+(* TreeSet::MergeTo(TreeSet& dst) for equal memory managers; None = the fast concatenation path (not modelled) *)
+Definition merge_to (src dst : tree) : option (tree * tree) :=
+  let count := cnt src in let dcount := cnt dst in
+  if count =? 0 then Some (src, dst)
+  else if dcount =? 0 then Some ({| root := root dst; cnt := cnt dst |}, {| root := root src; cnt := cnt src |})
+  else
+    let sl := contents src in let dl := contents dst in
+    let sfirst := hd 0%Z sl in let slast := last sl 0%Z in let dfirst := hd 0%Z dl in let dlast := last dl 0%Z in
+    if key_ordered dlast sfirst || (slast <? dfirst)%Z then None
+    else if count * Nat.log2 (count + dcount) <? count + dcount
+         then Some (merge_generic (S count) src dst (begin_iter src))
+         else Some (merge_linear (S (count + dcount)) src dst (begin_iter src) (begin_iter dst)).
+
 End Model.
